@@ -194,7 +194,9 @@ class Machine:
         self.forked = False  # did any step have more than one successor (an uninterpreted condition / outcome)?
 
     def run(self, env: Dict[str, Any], start: Optional[Node] = None,
-            stop: Optional[Callable[[Node], bool]] = None) -> List[Outcome]:
+            stop: Optional[Callable[[Node], bool]] = None,
+            halt: Optional[Callable[[Node, Dict[str, Any]], bool]] = None) -> List[Outcome]:
+        """``halt(node, env)``: end this execution here (observing an endless generator for a while)"""
         out: List[Outcome] = []
         work: List[Tuple[Node, List[Node], Dict[str, Any], int]] = [(start or self.cfg.entry, [], dict(env), 0)]
         while work:
@@ -202,7 +204,8 @@ class Machine:
             if steps > self.max_steps:
                 raise AnalysisError(f"{self.cfg.unit.short}: abstract evaluation does not terminate")
             path = path + [node]
-            if node.kind in ("exit", "raise_exit") or (stop is not None and stop(node) and len(path) > 1):
+            if node.kind in ("exit", "raise_exit") or (stop is not None and stop(node) and len(path) > 1) \
+                    or (halt is not None and halt(node, e)):
                 out.append(Outcome(path, e, node))
                 if len(out) > self.max_outcomes:
                     raise AnalysisError(f"{self.cfg.unit.short}: abstract evaluation exceeds {self.max_outcomes} executions")
